@@ -27,7 +27,10 @@
 // non-empty message that names an expression or carries the source location of the offending
 // call; it never panics, never kills the process (stack overflow), never hangs (20 s in the
 // worker, then 60 s alone in a fresh process before it is believed). An accepted design of the
-// dangling family must no longer mention "zzq" anywhere (reflection walk over expr.Root).
+// dangling family is a violation when the program cannot have replaced the referring construct
+// (always when the template is alone; with companions for list-appending constructs such as
+// Security, Required, Header, Param, view attributes); otherwise when the accepted design still
+// mentions "zzq" anywhere (reflection walk over expr.Root).
 package main
 
 import (
@@ -161,7 +164,7 @@ func run(c *core.Ctx) {
 	c.Assume("fresh state per program inside a worker process = eval.Reset + new expr.Root / expr.GeneratedResultTypes registered (goa's own test recipe, without a pre-made API) + expr.validated emptied + pristine deep copies of the mutable built-ins expr.ErrorResult and expr.Empty; dsl.resultTypeCount (only numbers anonymous result types) is not reset; every violation is re-executed in fresh processes before it is reported")
 	c.Assume("an error entry 'locates an expression' when it names an expression (eval.ReportError's ' in <EvalName>' / '(top level)' suffix, or a ValidationErrors entry with a non-empty EvalName) or carries the file:line of the offending call")
 	c.Assume("the argument menu contains the value dsl.ResultType really returns after reporting an error (obtained by calling it with too many arguments at the point of use): a design that keeps using `var RT = ResultType(...)` of a broken definition")
-	c.Assume("dangling-reference clause: the family's programs refer to the name zzq, which no menu contains, so they never define it; an accepted design 'still refers' to it when a string reachable from expr.Root / expr.GeneratedResultTypes through goa's own struct types contains it (third-party data such as the example generator's word lists is skipped)")
+	c.Assume("dangling-reference clause: the family's programs refer to the name zzq, which no menu contains, so they never define it; acceptance is a violation by itself when no call of the program can replace the referring construct (template alone, or list-appending constructs); otherwise an accepted design 'still refers' to it when a string reachable from expr.Root / expr.GeneratedResultTypes through goa's own struct types contains it (third-party data such as the example generator's word lists is skipped)")
 	c.Assume("the worker reaches goa's unexported expr.validated through go:linkname (no overlay); a rename in goa makes the worker fail to link, which is reported as a harness error")
 	c.Assume("depth-2/3 argument vectors are selected from the depth-1 outcomes of the same run (steers enumeration only)")
 
@@ -211,11 +214,11 @@ func run(c *core.Ctx) {
 		c.HarnessError("cannot write selection: %v", err)
 		return
 	}
-	fams := []string{"dangling1", "rec1", "dangling2", "d2"}
-	bounds := "depth 1: complete product (quick menus: two-value variadic tails over the 6 most common values); depth 2: all ordered pairs per context over {first accepted, first ill-typed} vectors; dangling references alone and with one accepted companion call before/after; self-recursive types with bodies of 1..2 calls"
+	fams := []string{"dangling1", "rec1", "recref1", "dangling2", "d2"}
+	bounds := "depth 1: complete product (quick menus: two-value variadic tails over the 6 most common values); depth 2: all ordered pairs per context over {first accepted, first ill-typed} vectors; dangling references (every position of name lists) alone and with one accepted companion call before/after; self-recursive types with bodies of 1..2 calls, and extended / referenced from a second type, payload or result with and without same-named attributes"
 	if c.Thorough() {
-		fams = []string{"dangling1", "rec1", "dangling2", "rec2", "d2", "d3", "dangling3"}
-		bounds = "depth 1: complete product of the full menus; depth 2: all ordered pairs per context over one vector per distinct depth-1 outcome class (max 8) plus {first accepted, first ill-typed}; depth 3: all ordered triples of the calls goa accepts in every context (in the 8 relevant contexts also of their ill-typed variants); dangling references alone, with one and with two accepted companion calls in every position; self-recursive and mutually recursive type pairs"
+		fams = []string{"dangling1", "rec1", "recref1", "dangling2", "rec2", "recref2", "d2", "d3", "dangling3"}
+		bounds = "depth 1: complete product of the full menus; depth 2: all ordered pairs per context over one vector per distinct depth-1 outcome class (max 8) plus {first accepted, first ill-typed}; depth 3: all ordered triples of the calls goa accepts in every context (in the 8 relevant contexts also of their ill-typed variants); dangling references alone, with one and with two accepted companion calls in every position; self-recursive and mutually recursive type pairs, also extended / referenced from a second type, payload or result"
 	}
 	c.Note("bounds", bounds)
 	for _, f := range fams {
